@@ -180,10 +180,10 @@ def run_fold_case(fi, si, route):
 # ---- timestamp OBJECTS carrying each precision setting, handed to constructors whose slots have other settings (also via deepcopy)
 def timestamp_objects(kind: int) -> bool:
     """
-    pre: 0 <= kind <= 1
+    pre: 0 <= kind <= 2
     post: _
     """
-    kind = pick(kind, 2)
+    kind = pick(kind, 3)
     with Native():
         ok = run_ts_object_case(kind)
     V.reached()
@@ -197,6 +197,26 @@ def run_ts_object_case(kind):
     from props import h_C01
     if kind == 0:
         return h_C01.run_special_case(14) is True
+    if kind == 2:
+        # a created time given as a factory / environment DEFAULT is written exactly as when it is given to the class directly
+        from stix2.environment import Environment, ObjectFactory
+        for t in ("2020-01-01T00:00:07.123456Z", "2020-01-01T00:00:07.120Z", "2020-01-01T00:00:07Z", dt.datetime(2020, 1, 1, 0, 0, 7, 999,
+                  tzinfo=dt.timezone(dt.timedelta(hours=5, minutes=30))), dt.datetime(999, 12, 31, 23, 59, 59, 999999)):
+            for cls, kw in ((stix2.v20.Identity, dict(name="n", identity_class="individual")), (stix2.v21.Identity, dict(name="n", identity_class="individual")),
+                            (stix2.v21.Relationship, dict(relationship_type="uses", source_ref="malware--" + "0" * 8 + "-f010-4473-83ec-1edf84858f4c",
+                                                          target_ref="tool--" + "0" * 8 + "-f010-4473-83ec-1edf84858f4c"))):
+                want = json.loads(cls(created=t, modified=t, **kw).serialize())["created"]
+                f1 = ObjectFactory(created=t)
+                f2 = ObjectFactory()
+                f2.set_default_created(t)
+                e1 = Environment(factory=ObjectFactory())
+                e1.set_default_created(t)
+                for api in (f1, f2, e1):
+                    o = api.create(cls, **kw)
+                    j = json.loads(o.serialize())
+                    if j["created"] != want or j["modified"] != want:
+                        return False
+        return True
     # deep copies write what the original wrote, and what is written reads back to the same text
     for cls, kw in ((stix2.v20.MarkingDefinition, dict(definition_type="statement", definition={"statement": "s"})),
                     (stix2.v21.MarkingDefinition, dict(definition_type="statement", definition={"statement": "s"})),
